@@ -10,7 +10,7 @@ NA = {
 
 CHECKS = {
     "C08": dict(
-        technique="typestate / must-pass-through analysis on rustc MIR (custom rustc_private driver + CFG path search); dominance of every success publication by the Ok edge of the fallible calls before it",
+        technique="typestate / must-pass-through analysis on rustc MIR (custom rustc_private driver + CFG path search); dominance of every success publication by the Ok edge of the fallible calls before it; lock re-acquisition dataflow (R-BLOCK)",
         text="Decides the wedge clause for all inputs and all failure points: the in-progress marker of the frame-render state "
              "machine is resolved on every CFG exit path (each `?` is an exit edge), the only blocking wait waits only for that "
              "marker inside a re-check loop, and done_render rejects the marker and notifies. Does not decide sample equality "
@@ -28,7 +28,7 @@ CHECKS = {
         note="intraprocedural; guards matched by dominance of an ordering comparison on the same value class (under-approximate once any comparison is seen)",
         ref="DESIGN.md section 3 C01"),
     "C09": dict(
-        technique="must-pass-through rules on MIR for the carry-over buffer and the consumed-byte contract, plus the shared container/EOF classification rules; must-pass-through of the tail move between a feed_bytes call and the next read in the library's own read loops; must-pass-through of the buffer-offset commit after every drain of the carry-over buffer",
+        technique="must-pass-through rules on MIR for the carry-over buffer and the consumed-byte contract, plus the shared container/EOF classification rules; must-pass-through of the tail move between a feed_bytes call and the next read in the library's own read loops; must-pass-through of the buffer-offset commit after every drain of the carry-over buffer; reachability walk (block x {parsed, appended, initialised, error}) of the jbrd header retry",
         text="Claimed narrowly: the plumbing that makes a chunk boundary invisible (each a necessary condition): the public feed functions "
              "return the parser's consumed-byte count; the frame loader re-stores the unconsumed remainder on every successful exit after "
              "it consumed bytes; the box-header parser is prefix-closed; aux boxes are finalised at end of input; end-of-data is classified "
@@ -66,7 +66,7 @@ CHECKS = {
         note="reference decision tables transcribed from ISO/IEC 18181-1; abstraction: duration {0,1,1000}, save_as_reference 0..3",
         ref="DESIGN.md section 3 C05"),
     "C06": dict(
-        technique="must-pass-through and loop-iteration path rules on MIR (cache invalidation); constant propagation over MIR (header field, enum discriminant and const-generic parameters fixed) comparing filter padding with the reach read from the kernel offset tables; data flow of the base grid's region list into Region::intersection in blend(); registry of repair guards; evaluation of Region::apply_orientation from MIR over concrete rectangles against the brute-force preimage",
+        technique="must-pass-through and loop-iteration path rules on MIR (cache invalidation); constant propagation over MIR (header field, enum discriminant and const-generic parameters fixed) comparing filter padding with the reach read from the kernel offset tables; data flow of the base grid's region list into Region::intersection in blend(); registry of repair guards; evaluation of Region::apply_orientation from MIR over concrete rectangles against the brute-force preimage; evaluation of the Region methods from MIR against pixel-set semantics",
         text="Claimed narrowly: region changes always invalidate. Every store to the requested region reaches reset_cache; reset_cache "
              "clears the loading caches and replaces the handle of every non-ReferenceOnly frame by a fresh handle built for the new "
              "region. Necessary for history-independence of region requests; does not decide padding arithmetic.",
@@ -87,7 +87,7 @@ CHECKS = {
         note="trusts std atomics; count*size_of wrap in release is bounded by C01 limits, not re-proved",
         ref="DESIGN.md section 3 C13"),
     "C14": dict(
-        technique="read-layout reconstruction from MIR of every header parser (primitive, distribution constants, field binding, controlling conditions) compared with a table reviewed against the specification; decision-table extraction of canvas predicates by abstract evaluation; index-provenance agreement of the parallel gathers in the permuted table of contents",
+        technique="read-layout reconstruction from MIR of every header parser (primitive, distribution constants, field binding, controlling conditions) compared with a table reviewed against the specification; decision-table extraction of canvas predicates by abstract evaluation; index-provenance agreement of the parallel gathers in the permuted table of contents; evaluation of the U64 and F16 readers from MIR against a scripted bit source (value and read widths)",
         text="Decides the layout half: for 30 header parsers (160 reads) the order, primitive, distribution, field binding and condition of "
              "every bitstream read equal the reviewed table, so a changed distribution, dropped/reordered field or altered presence "
              "condition is reported with the first differing read; the canvas predicates gating blending fields equal their definition on "
@@ -110,7 +110,7 @@ CHECKS = {
         note="kernel families are recognised by name after stripping the architecture suffix",
         ref="DESIGN.md section 3 C16"),
     "C03": dict(
-        technique="comparison of rustc-evaluated format tables and enum code maps with references transcribed from the standard; sibling cross-check of the two channel-partition predicates on MIR; scope (construction-site / loop) rule for the RLE run state; who-may-reset-without-previous-channels rule tied to the table-refusal check; concrete evaluation (constant propagation) of the previous-channel depth expression; saturating-index rule for compiled lookup tables; registry of repair guards; data-dependence of the palette fast-path decision on the delta-entry count; decision table of the delta-prediction bookkeeping by a product-state walk of MIR (block x known integer locals)",
+        technique="comparison of rustc-evaluated format tables and enum code maps with references transcribed from the standard; sibling cross-check of the two channel-partition predicates on MIR; scope (construction-site / loop) rule for the RLE run state; who-may-reset-without-previous-channels rule tied to the table-refusal check; concrete evaluation (constant propagation) of the previous-channel depth expression; saturating-index rule for compiled lookup tables; registry of repair guards; data-dependence of the palette fast-path decision on the delta-entry count; decision table of the delta-prediction bookkeeping by a product-state walk of MIR (block x known integer locals); evaluation of Predictor::predict from MIR for the 13 stateless predictors against the format's formulas; reachability walk (block x flags) for the per-row reset of the remembered gradient",
         text="Claimed narrowly: three structural necessary conditions of exact lossless decoding. The weighted-predictor reciprocal table "
              "and the delta palette have the specified values; the 14 predictor codes denote the specified predictors (enum discriminants "
              "and the TryFrom<u32> switch); the predicate that keeps a channel in the global section and the one that skips it when "
@@ -119,7 +119,7 @@ CHECKS = {
         note="everything arithmetic about prediction, context trees, fast paths and inverse transforms is undecided",
         ref="DESIGN.md section 8.14"),
     "C04": dict(
-        technique="comparison of rustc-evaluated constant tables with references transcribed from the standards; validation-check reconstruction from MIR against a reviewed table; constant-agreement rule on the LZ77 window; constant-propagating path rule (enum variant fixed) on the single-token shortcut; must-pass-through of Decoder::finalize for every decoder owner; must-pass-through of the bit-buffer refill on every path of Coder::read_symbol",
+        technique="comparison of rustc-evaluated constant tables with references transcribed from the standards; validation-check reconstruction from MIR against a reviewed table; constant-agreement rule on the LZ77 window; constant-propagating path rule (enum variant fixed) on the single-token shortcut; must-pass-through of Decoder::finalize for every decoder owner; must-pass-through of the bit-buffer refill on every path of Coder::read_symbol; must-pass-through of the previous-symbol store between two code-length symbol reads",
         text="Claimed narrowly: three structural necessary conditions. The tables the entropy decoder takes from the format (LZ77 special "
              "distances, code-length order) have the specified values; the acceptance checks the property names (ANS final state 0x130000, "
              "complete prefix codes, distribution sums, cluster map holes, Lehmer digits) exist as compare->error; the LZ77 window "
@@ -136,7 +136,7 @@ CHECKS = {
         note="the rational approximations of the PQ / sRGB curves are snapshot-guarded only (stated in evidence)",
         ref="DESIGN.md section 8.9"),
     "C12": dict(
-        technique="exhaustive decision-table extraction of the buffer-width predicate by abstract evaluation of MIR; sibling-implementation cross-checks (resolved callees and operators of the I32 vs I16 arms and of the i32 vs i16 trait impls); no saturating i16 arithmetic in the sample-processing crates (callee census); operation-multiset agreement of the scalar i16 / i32 transform kernels; operation ordering (shift at 32 bits before the narrowing cast) in the i16 token unpacker",
+        technique="exhaustive decision-table extraction of the buffer-width predicate by abstract evaluation of MIR; sibling-implementation cross-checks (resolved callees and operators of the I32 vs I16 arms and of the i32 vs i16 trait impls); no saturating i16 arithmetic in the sample-processing crates (callee census); operation-multiset agreement of the scalar i16 / i32 transform kernels; operation ordering (shift at 32 bits before the narrowing cast) in the i16 token unpacker; evaluation of the four UnpackSigned copies from MIR; field-set agreement of the two arms of every narrow / wide branch in RenderContext",
         text="Claimed narrowly: what selects the buffer width, and that both widths go through the same operations. narrow_modular equals "
              "`!force_wide && header flag` for all four input combinations and the builder setting reaches the render context; every match "
              "on ImageBuffer with separate 32-bit / 16-bit arms (15) and every i16/i32 pair of Sample/Sealed methods (12) use the same "
@@ -162,7 +162,7 @@ CHECKS = {
         note="table transcribed from the decoder and checked against ISO/IEC 18181-1 Annex on ICC encoding where the condition is explicit; intraprocedural",
         ref="DESIGN.md section 8.6"),
     "C20": dict(
-        technique="protocol-shape rules on MIR: who-may-write census, test-and-set shape, must-pass-through, guard liveness dataflow; dominance of every success publication by the Ok edge of the fallible calls before it",
+        technique="protocol-shape rules on MIR: who-may-write census, test-and-set shape, must-pass-through, guard liveness dataflow; dominance of every success publication by the Ok edge of the fallible calls before it; lock re-acquisition dataflow (R-BLOCK)",
         text="Decides the structural safety argument of the render-handle protocol for every interleaving: exact writer/locker "
              "sets, atomic acquire, release on all paths, notify under guard, wait in re-check loop, no handle guard live across "
              "a call that can lock a handle. Does not decide that all callers receive identical pixels.",
